@@ -1384,7 +1384,8 @@ def run(ctx):
         f"vm_compute cross-check of {nx} requests",
     ]
     assumptions = [
-        "C09_exactly_once_partial / C09_every_placement / C09_histories_partial / C09_placement_histories are proved under "
+        "C09_exactly_once_partial / C09_every_placement / C09_histories_partial / C09_placement_histories / "
+        "C09_safe_histories are proved under "
         "clean: the partition condition on the importance trees of the cells (imp_cell_ok; only when IMP is printed in "
         "the cell block; the model reports per case whether it holds: model_diag) and the two documented refusals "
         "(imp_data_ok: ParticleTypeNotInCell; fill_ok: 'Fill can not be in the data block'); C09_aligned, "
